@@ -243,7 +243,7 @@ def run_sessions(run, specs, oracle=None, relevant=0xFF, model_verify=True, jobs
         # generators binds only the sum of their coefficients); members whose specs ask for degenerate generators are exempt
         for mi, (ms, mo) in enumerate(zip(s["members"], o["members"])):
             g = mo.get("gens")
-            if not g or s.get("_beyond_constructors") or any(ms.get(k) for k in ("h_scale", "gb_scale", "gb0_eq_cH", "gb_eq", "gbc_scale", "hc_scale")):
+            if not g or s.get("_beyond_constructors") or any(ms.get(k) for k in ("h_scale", "gb_scale", "gb0_eq_cH", "gb_eq", "gbc_scale", "hc_scale", "hp_scale", "gbp_scale")):
                 continue
             names = ["H"] + [f"Gb[{k}]" for k in range(len(g["Gb"]))] + [f"G[{i}]" for i in range(len(g["G"]))] + [f"H[{i}]" for i in range(len(g["Hv"]))]
             encs = [p_.get("enc") for p_ in [g["H"]] + g["Gb"] + g["G"] + g["Hv"]]
